@@ -484,8 +484,9 @@ def rules(repo, tier):
     from ..optional import rule_optional
     from ..mode import mode_rules
     from ..callsig import rule_callsig
+    from ..docsig import rule_docsig
     return list(_rules_core(repo, tier)) + [rule_memo(repo, 'C08.MEMO', 'history independence: nothing computed from the contents of a tensor argument is kept '
                                                       'under the identity, address or version of that tensor, in module-level storage, or published from a generator '
                                                       'before it is complete - a later call with the same object and other contents must not be answered from it',
                                                       ['pypose.optim.optimizer', 'pypose.optim.strategy'], floor=3),
-            rule_optional(repo, 'C08.OPT', ['pypose.optim.optimizer', 'pypose.optim.strategy'])] + mode_rules(repo, 'C08', ['pypose.optim.optimizer', 'pypose.optim.strategy']) + [rule_callsig(repo, 'C08.SIG', ['pypose.optim.optimizer', 'pypose.optim.strategy'])]
+            rule_optional(repo, 'C08.OPT', ['pypose.optim.optimizer', 'pypose.optim.strategy'])] + mode_rules(repo, 'C08', ['pypose.optim.optimizer', 'pypose.optim.strategy']) + [rule_callsig(repo, 'C08.SIG', ['pypose.optim.optimizer', 'pypose.optim.strategy']), rule_docsig(repo, 'C08.DOC', ['pypose.optim.optimizer', 'pypose.optim.strategy'])]
